@@ -323,6 +323,7 @@ class Sim:
         self.cpu.tick = self._tick
         self.exc = None
         self.hang = False
+        self.resource = None
 
     # -- scheduler -----------------------------------------------------------
 
@@ -354,6 +355,15 @@ class Sim:
             self._note_io(n)
         self._orig_tick()
         self.ticks = n + 1
+        st = self.cpu.stack
+        if st:
+            v = st[-1].value
+            if type(v) is str and len(v) > 100000:
+                # unbounded string growth (QBASIC caps strings at 32767
+                # characters, qbee does not): stop the run as inconclusive
+                # instead of exhausting the host's memory
+                self.resource = 'string-growth'
+                raise BudgetExceeded()
         for h in self.post_hooks:
             h(self, n)
 
